@@ -584,7 +584,11 @@ def main():
     phases = [pytree_check(ck, 20 if quick else 200), permutation_check(ck, 15 if quick else 150),
               jit_check(ck, 9 if quick else 45), vmap_check(ck, 8 if quick else 60)]
     batches = [next(ph) for ph in phases]            # every phase first yields its runs ...
-    res = run([r for b in batches for r in b])        # ... all runs are dispatched together ...
+    allruns = [r for b in batches for r in b]
+    res = run(allruns)                                # ... all runs are dispatched together ...
+    walls = sorted(((r.get("_wall", 0.0), f"{c['type']}/{c.get('kind')}/{c.get('routine')}{'/nojit' if c.get('nojit') else ''}") for c, r in zip(allruns, res)), reverse=True)
+    ck.hist["slowest_runs_s"] = {w[1] + f"#{i}": w[0] for i, w in enumerate(walls[:5])}
+    ck.hist["runs"] = {"n": len(allruns), "sum_s": round(sum(w[0] for w in walls), 1)}
     k = 0
     for ph, b in zip(phases, batches):               # ... and every phase then evaluates its slice
         try:
